@@ -162,6 +162,10 @@ MUTATIONS = [
      "what": "Query.__init__ tests `if conditions` on the argument and then builds the set from it a second time through a generator expression filter",
      "old": "        self.conditions = _ensure_set(conditions or set())",
      "new": "        self.conditions = _ensure_set(conditions) if (isinstance(conditions, Variable) or (conditions is not None and any(True for _ in conditions))) else set()"},
+    {"id": "mid_from_expression_estimand_is_query", "props": ["C06", "C01"], "file": UT,
+     "what": "Identification.from_expression uses the query expression itself as the starting estimand when none is given (interventional term carried into the result)",
+     "old": "            query=Query.from_expression(query),\n            graph=graph,\n            estimand=estimand,",
+     "new": "            query=Query.from_expression(query),\n            graph=graph,\n            estimand=query if estimand is None else estimand,"},
 ]
 
 
